@@ -16,7 +16,7 @@ variable {σ π : Type} [PsInv σ]
 theorem aspiration_free2 (c : Comp σ π) (L : Limits) {Good : Board → Prop} {TTok : σ → Prop} {μ : Board → Nat}
     (hl : Laws c Good) (sl : ScoreLaws c Good TTok μ) (al : AspLaws c) (fuel : Nat) (idD : Int) :
     ∀ (n : Nat) (alpha beta factor : Score) (s : St σ), Good s.board → TTA2 TTok s →
-      (s.ttOut = false → AspInv alpha beta factor) →
+      (s.ttOut = false → AspInv c.windowSize alpha beta factor) →
       TTA2 TTok (aspiration c L fuel idD n alpha beta factor s).st ∧
       (∀ al be sa s', aspiration c L fuel idD n alpha beta factor s = .ok al be sa s' → s'.ttOut = false →
         InR sa ∧ (idD = 1 → RootOut' c.keys s.board s')) := by
@@ -29,10 +29,10 @@ theorem aspiration_free2 (c : Comp σ π) (L : Limits) {Good : Board → Prop} {
     intro alpha beta factor s hg htt hinv
     have hab := alphaBeta_spec c L hl fuel alpha beta idD 0 .pv s hg htt.1 (Int.le_refl 0)
     have hrg := alphaBeta_range2 c L hl sl fuel alpha beta idD 0 .pv s hg (Int.le_refl 0) (by decide)
-      (fun hA => (aspInv_win (hinv hA)).1) htt
+      (fun hA => (aspInv_win al.windowSafe (hinv hA)).1) htt
     have hroot := fun (hb32 : beta ≤ 32528) (h1 : idD = 1) => alphaBeta_root_gen2 c L hl sl fuel alpha beta idD (by omega)
-      (fun se h => al.rfp_shallow idD se beta (by omega) (by omega) hb32 h) s (fun hA => (aspInv_win (hinv hA)).1) hg htt
-    simp only [aspiration, al.window44]
+      (fun se h => al.rfp_shallow idD se beta (by omega) (by omega) hb32 h) s (fun hA => (aspInv_win al.windowSafe (hinv hA)).1) hg htt
+    simp only [aspiration]
     simp only at hroot
     generalize alphaBeta c L fuel alpha beta idD 0 .pv s = r at hab hrg hroot ⊢
     have haf := abort_frame L r.2
@@ -58,7 +58,7 @@ theorem aspiration_free2 (c : Comp σ π) (L : Limits) {Good : Board → Prop} {
         have hgt : alpha < r.1 := Int.not_le.1 hin.1
         have hlt : r.1 < beta := Int.not_le.1 hin.2
         refine ⟨hsr hA, fun h1 => ?_⟩
-        rcases hroot (aspInv_win (hinv (hback hA))).2 h1 hrab (by rw [← han]; exact hA) hgt hlt with h | h
+        rcases hroot (aspInv_win al.windowSafe (hinv (hback hA))).2 h1 hrab (by rw [← han]; exact hA) hgt hlt with h | h
         · exact Or.inl (by rw [hap]; exact h)
         · exact Or.inr h
       · next hnin =>
@@ -68,7 +68,7 @@ theorem aspiration_free2 (c : Comp σ π) (L : Limits) {Good : Board → Prop} {
           · by_cases h2 : beta ≤ r.1
             · exact Or.inr h2
             · exfalso; apply hnin; simp [h1, h2]
-        have hstep := fun (hA : as.2.ttOut = false) => aspInv_step (hinv (hback hA)) (hsr hA) hout
+        have hstep := fun (hA : as.2.ttOut = false) => aspInv_step al.windowSafe (hinv (hback hA)) (hsr hA) hout
         have hb2 : as.2.board = s.board := by rw [haf.board, hab.1.board]
         have := ih _ _ _ as.2 (by rw [hb2]; exact hg) htt2 hstep
         rw [hb2] at this
@@ -80,7 +80,7 @@ theorem idLoop_free2 (c : Comp σ π) (L : Limits) (clock : Clock) {Good : Board
     (hl : Laws c Good) (sl : ScoreLaws c Good TTok μ) (al : AspLaws c) (fuel : Nat) (b : Board) (hg : Good b)
     (hd : 1 ≤ L.depth) :
     ∀ (n : Nat) (idD : Int) (v : IDVars) (s : St σ), s.board = b → 0 ≤ idD → (n : Int) + idD = 64 →
-      TTA2 TTok s → (s.ttOut = false → AspInv v.alpha v.beta 1) →
+      TTA2 TTok s → (s.ttOut = false → AspInv c.windowSize v.alpha v.beta 1) →
       (s.ttOut = false → 2 ≤ idD → v.move ≠ 0 ∨ Final c.keys b) →
       TTA2 TTok (idLoop c L clock fuel n idD v s).st ∧
       ((idLoop c L clock fuel n idD v s).st.ttOut = false → (idLoop c L clock fuel n idD v s).move = 0 → Final c.keys b) := by
@@ -155,8 +155,8 @@ theorem idLoop_free2 (c : Comp σ π) (L : Limits) (clock : Clock) {Good : Board
           · push_cast at hn ⊢; omega
           · exact htt'.congr rfl rfl
           · intro hA
-            show AspInv (wrapS16 (sample - c.windowSize)) (wrapS16 (sample + c.windowSize)) 1
-            rw [al.window44]; exact aspInv_first (hokc' hA).1
+            show AspInv c.windowSize (wrapS16 (sample - c.windowSize)) (wrapS16 (sample + c.windowSize)) 1
+            exact aspInv_first al.windowSafe (hokc' hA).1
           · intro hA h2
             have hA' : s'.ttOut = false := hA
             show pickMove (s'.pv.row 0) v.move ≠ 0 ∨ Final c.keys b
